@@ -4,6 +4,7 @@ import (
 	"bufio"
 	"fmt"
 	"io"
+	"os"
 	"os/exec"
 	"strconv"
 	"strings"
@@ -29,6 +30,12 @@ type Solver struct {
 	log     io.Writer
 	timeout int // ms per query
 	lastErr string
+	// when the primary solver answers unknown, the query is retried on a z3
+	// process kept for that purpose; models then come from it
+	fallback  *Solver
+	useFB     bool
+	Fallbacks int
+	isFB      bool
 }
 
 func NewSolver(bin []string, timeoutMs int) *Solver {
@@ -54,9 +61,9 @@ func (s *Solver) start() {
 		if s.timeout > 0 {
 			s.send(fmt.Sprintf("(set-option :timeout %d)", s.timeout))
 		}
-	} else {
-		s.send("(set-logic ALL)")
 	}
+	// terms are bit-vectors, Booleans and uninterpreted functions only
+	s.send("(set-logic QF_UFBV)")
 }
 
 func (s *Solver) send(l string) {
@@ -142,6 +149,33 @@ func (s *Solver) readLine() string {
 // makes the answer "unknown" (and is remembered in lastErr): an answer given
 // after a rejected assertion is not trusted.
 func (s *Solver) Check(pc []*Term, extra *Term) string {
+	s.useFB = false
+	r := s.check1(pc, extra)
+	if r != "unknown" || s.isFB {
+		return r
+	}
+	if s.fallback == nil {
+		to := s.timeout * 3
+		s.fallback = &Solver{bin: []string{"z3", "-in", "-smt2"}, timeout: to, isFB: true}
+		s.fallback.start()
+	}
+	t0 := time.Now()
+	r2 := s.fallback.check1(pc, extra)
+	s.Time += time.Since(t0)
+	s.Fallbacks++
+	if r2 != "unknown" {
+		s.Unknown--
+		if r2 == "sat" {
+			s.Sat++
+			s.useFB = true
+		} else {
+			s.Unsat++
+		}
+	}
+	return r2
+}
+
+func (s *Solver) check1(pc []*Term, extra *Term) string {
 	t0 := time.Now()
 	if extra != nil {
 		s.ensure(extra)
@@ -172,6 +206,17 @@ func (s *Solver) Check(pc []*Term, extra *Term) string {
 	if bad || r == "" || r == "timeout" {
 		r = "unknown"
 	}
+	if r == "unknown" {
+		if d := os.Getenv("VERIF_DUMP_UNKNOWN"); d != "" {
+			var sb strings.Builder
+			for _, t := range append(append([]*Term(nil), pc...), extra) {
+				if t != nil {
+					sb.WriteString("(assert " + t.String() + ")\n")
+				}
+			}
+			os.WriteFile(fmt.Sprintf("%s/unknown_%d_%d.txt", d, os.Getpid(), s.Queries), []byte(sb.String()), 0o644)
+		}
+	}
 	if extra != nil && r != "sat" {
 		s.send("(pop 1)")
 	}
@@ -180,6 +225,13 @@ func (s *Solver) Check(pc []*Term, extra *Term) string {
 		s.stack = append(s.stack, extra)
 	}
 	d := time.Since(t0)
+	if d > 20*time.Millisecond && os.Getenv("VERIF_SLOWQ") != "" {
+		x := ""
+		if extra != nil {
+			x = extra.String()
+		}
+		fmt.Fprintf(os.Stderr, "SLOWQ %v depth %d %s: %.300s\n", d, len(pc), r, x)
+	}
 	s.Time += d
 	if d > s.MaxQ {
 		s.MaxQ = d
@@ -218,6 +270,9 @@ func parseVal(val string) (uint64, bool) {
 
 // Values returns the model values of the given terms after a sat Check.
 func (s *Solver) Values(ts []*Term) []uint64 {
+	if s.useFB && s.fallback != nil {
+		return s.fallback.Values(ts)
+	}
 	out := make([]uint64, len(ts))
 	for i, v := range ts {
 		if v.Op == "const" {
@@ -250,6 +305,9 @@ func (s *Solver) Values(ts []*Term) []uint64 {
 }
 
 func (s *Solver) Close() {
+	if s.fallback != nil {
+		s.fallback.Close()
+	}
 	s.send("(exit)")
 	done := make(chan struct{})
 	go func() { s.cmd.Wait(); close(done) }()
